@@ -11,7 +11,11 @@ import (
 
 // ContentProblem compares what the token's bytes carry (independent decoder)
 // with what the token's own callers put in. "" means equal.
-func ContentProblem(t *TokObj) string {
+func ContentProblem(t *TokObj) string { return contentProblem(t, true) }
+
+// contentProblem with schema=false ignores the symbol-table layout rules (they are C07's
+// subject) and only compares the resolved content.
+func contentProblem(t *TokObj, schema bool) string {
 	if t.Abs == nil || t.B == nil {
 		return ""
 	}
@@ -23,7 +27,7 @@ func ContentProblem(t *TokObj) string {
 	if err != nil {
 		return "independent decoder cannot read the token: " + err.Error()
 	}
-	if len(problems) > 0 {
+	if schema && len(problems) > 0 {
 		return "schema rules broken: " + strings.Join(problems, "; ")
 	}
 	if len(got.Blocks) != len(t.Abs.Blocks) {
@@ -86,7 +90,7 @@ func (o ImmutOracle) AfterStep(m *VM, rec *Rec) {
 			s.fp[i] = fp
 			s.created[i] = rec.I
 			if t, ok := sl.(*TokObj); ok && !t.Hostile {
-				if p := ContentProblem(t); p != "" {
+				if p := contentProblem(t, false); p != "" {
 					m.Probe("content_mismatch_on_creation")
 					m.Violate(o.Prop, "content-differs-from-callers-input", "token created by "+rec.K+" does not contain what its callers put in",
 						fmt.Sprintf("op %d (%s) produced token in slot %d: %s", rec.I, rec.K, i, p))
